@@ -34,7 +34,7 @@ Report schema
            "platform": int (validation platform for the initial entry, section header platform otherwise),
            "indicator": int, "media": int, "seg": int, "systype": int, "unused": int, "count": int,
            "rba": int, "criteria": int, "tail_zero": bool,
-           "in_image": bool, "head_hex": str (first 64 bytes at rba),
+           "in_image": bool (sector rba exists), "count_in_image": bool (all count*512 bytes exist), "head_hex": str (first 64 bytes at rba),
            "sha_count": str  (SHA-256 of count*512 bytes at rba),
            "sha_count_nobit": str (same with bytes 8..63 replaced by zeros),
            "sha_sectors": str (SHA-256 of the 2048-rounded region),
@@ -181,7 +181,7 @@ def _entry(raw, pos, kind, section, platform):
             'media': media, 'seg': seg, 'systype': systype, 'unused': unused, 'count': count,
             'rba': _i(rba), 'rba_hex': _h32(rba), 'criteria': crit,
             'tail_zero': raw[13:32] == b'\x00' * 19 if kind == 'section' else raw[12:32] == b'\x00' * 20,
-            'in_image': False, 'head_hex': '', 'sha_count': '', 'sha_count_nobit': '', 'sha_sectors': '',
+            'in_image': False, 'count_in_image': False, 'head_hex': '', 'sha_count': '', 'sha_count_nobit': '', 'sha_sectors': '',
             'media_sha': '', 'sha_len': '', 'sha_len_nobit': '', 'names': [],
             'file': {'known': False, 'size': 0, 'sha': '', 'sha_nobit': ''},
             'bit': {'looks': False, 'pvd': 0, 'sector': 0, 'length': 0, 'csum_hex': '', 'recomputed_hex': '',
@@ -194,8 +194,9 @@ def _fill_entry(e, data, files, pvd_sector, lbs):
         return
     start = rba * lbs
     n = e['count'] * 512
-    if rba >= 16 and start + max(n, 1) <= len(data):
-        e['in_image'] = True
+    if rba >= 16 and start + lbs <= len(data):
+        e['in_image'] = True          # the load sector exists (the load size may exceed the file: requester's choice)
+    e['count_in_image'] = rba >= 16 and start + max(n, 1) <= len(data)
     region = data[start:start + n]
     e['head_hex'] = data[start:start + 64].hex()
     e['sha_count'] = _sha(region)
